@@ -675,13 +675,9 @@ fn check_c11(s: &mut Sess, post: &Decoded, post_map: &HashMap<usize, u32>, log: 
             let bad: Option<String> = match r {
                 Region::BootStatus => None,
                 Region::BootOther => Some("boot sector bytes other than the status byte".into()),
-                Region::FsInfo => {
-                    if unmounting {
-                        None
-                    } else {
-                        Some("the FS-info sector outside unmount".into())
-                    }
-                }
+                // the information sector is one of the regions any operation may update (C11 lists it without tying
+                // it to unmount; an implementation may store count / hint eagerly). Its content is judged by C05.
+                Region::FsInfo => None,
                 Region::BackupBoot => Some("the backup boot sector".into()),
                 Region::ReservedOther => Some("a reserved sector".into()),
                 Region::Fat(c) => {
